@@ -296,6 +296,13 @@ class Blueprints(yamlize.Object, metaclass=_BlueprintsPluginCollector):
             self.assemblies.clear()
 
             for aDesign in self.assemDesigns:
+                if aDesign.specifier in self._assembliesBySpecifier:
+                    raise InputError(
+                        "The specifier `{}` of assembly `{}` is already used by another "
+                        "assembly. Specifiers must be unique.".format(
+                            aDesign.specifier, aDesign.name
+                        )
+                    )
                 a = aDesign.construct(cs, self)
                 self._assembliesBySpecifier[aDesign.specifier] = a
                 self.assemblies[aDesign.name] = a
